@@ -3,12 +3,15 @@
 import json, sys
 pid = sys.argv[1]
 n = int(sys.argv[2]) if len(sys.argv) > 2 else 3
+focus = sys.argv[3] if len(sys.argv) > 3 else None
+wave = sys.argv[4] if len(sys.argv) > 4 else ''
 rec = None
 for l in open('/verif/properties.jsonl'):
     r = json.loads(l)
     if r['id'] == pid:
         rec = r
-wt = '/tmp/seed-%s' % pid.lower()
+wt = '/tmp/seed%s-%s' % (wave, pid.lower())
+focus_line = ('\nFor this round concentrate on these areas (earlier rounds already covered others): %s.' % focus) if focus else ''
 print(f"""You are helping to evaluate a verification harness for the Python library bbrzycki/setigen by producing realistic property-breaking code changes ("seeded defects"). You work ONLY in your own scratch git worktree of the repository and you must NOT read or use anything under /verif (the harness under evaluation lives there; your changes must be independent of what it can already detect).
 
 Set up your worktree first:
@@ -30,7 +33,7 @@ Your task: produce {n} DIFFERENT changes to the library source under {wt}/setige
         cd {wt} && PYTHONPATH={wt} /venv/bin/python -m pytest -q -p no:cacheprovider --timeout=900 -x 2>&1 | tail -3      (55 tests, ~1 minute)
   (c) is REALISTIC — the kind of slip a maintainer could make in a refactor or an optimisation (off-by-one in a cursor/offset, a cache or buffer hoisted to module/class scope, state updated before instead of after a step, a rounding-mode or sign change, a wrong default, a missed reset, two sites that each look fine alone) — not a cosmetic edit and not sabotage of everything,
   (d) needs something SPECIFIC to manifest — a particular multi-step sequence of operations, a particular partition / interleaving, an unusual but valid input or configuration, a fault at a particular point — rather than something ordinary use would expose at once. Prefer changes whose effect is confined to a corner of the input space (but a corner a user can legitimately reach, inside what the property quantifies over).
-The {n} changes should hit different mechanisms / different files or functions where possible.
+The {n} changes should hit different mechanisms / different files or functions where possible.{focus_line}
 
 For EACH change k = 1..{n} deliver, in directory {wt}/seeded/k/ :
   * patch.diff — `git diff` of the change against the worktree's HEAD (only this one change applied; start each change from a clean tree: `git -C {wt} checkout -- setigen`),
